@@ -21,8 +21,8 @@ ASSUMPTIONS = ["topic and host names are ASCII (Kafka's legal topic alphabet); m
                "nested wrappers (depth 2) are generated in magic 0 only, where every inner offset is absolute and the "
                "expected result is unambiguous",
                "only Produce v0/v2 and Fetch v0/v2 response layouts are exercised (what the property names)"]
-REACH_MIN = {"responses": {"quick": 4000, "thorough": 80000}, "message_sets": {"quick": 1500, "thorough": 30000},
-             "magic1_wrapped": {"quick": 100, "thorough": 2000}, "roundtrip": {"quick": 800, "thorough": 16000}}
+REACH_MIN = {"responses": {"quick": 3520, "thorough": 42240}, "message_sets": {"quick": 1500, "thorough": 18000},
+             "magic1_wrapped": {"quick": 100, "thorough": 1200}, "roundtrip": {"quick": 800, "thorough": 9600}}
 
 BATCH = 100
 
